@@ -66,7 +66,8 @@ def run(path, extra=(), rlimit=None, timeout=1800, threads=None):
         vr = js.get("verification-results", {})
         res["verified"] = vr.get("verified")
         res["n_errors"] = vr.get("errors")
-        res["success"] = vr.get("success")
+        res["success"] = (vr.get("success") if "success" in vr else
+                          (not vr.get("encountered-error") and not vr.get("encountered-vir-error") and vr.get("errors") == 0)) and rc == 0
         res["vir_error"] = vr.get("encountered-vir-error")
         tm = js.get("times-ms", {})
         res["smt_ms"] = tm.get("smt", {}).get("total")
